@@ -4,7 +4,7 @@ CFG = dict(
     level="proof",
     lean_modules=["ElysModel.Props.C01"],
     props_files=["ElysModel/Props/C01.lean"],
-    runs=[scn_run("c01"), hist_run(), gentrip_run(focus="amm."), govamm_run(focus="amm.")],
+    runs=[scn_run("c01"), hist_run(), gentrip_run(focus="amm."), govamm_run(focus="amm."), hist_run(nq=150, nt=300, sq=6, st=8, focus="perp.")],
     rule=HIST_RULE + "; plus the directed scenarios (mode scn) that replay known multi-step histories",
     trusted_base=COMMON_TB + ["primitive pool ops are recognised from x/bank's own transfer events whose sender or recipient is a pool address; "
                               "a MsgSend by a user to a pool address is a donation"],
